@@ -59,6 +59,10 @@ pub enum RndOp {
     Stmt(u8),
     Program(Vec<u8>),
     Loop(u8),
+    /// `PRINT RND(1)` then `PRINT RND(RND(x))`: a call whose argument is itself a call.
+    Nested(u8),
+    /// A program whose RND argument comes from a user function that calls RND.
+    ViaDef(u8),
 }
 
 #[derive(Serialize, Deserialize, Debug, Clone)]
@@ -103,6 +107,8 @@ fn op_strategy() -> impl Strategy<Value = RndOp> {
         2 => (0u8..(STMTS.len() as u8)).prop_map(RndOp::Stmt),
         1 => prop::collection::vec(arg(), 1..5).prop_map(RndOp::Program),
         1 => (1u8..5).prop_map(RndOp::Loop),
+        2 => arg().prop_map(RndOp::Nested),
+        1 => (1u8..9).prop_map(RndOp::ViaDef),
     ]
 }
 
@@ -164,6 +170,14 @@ fn lines_of(op: &RndOp) -> Vec<String> {
             }
             v
         }
+        RndOp::Nested(a) => vec!["PRINT RND(1)".to_string(), format!("PRINT RND(RND({}))", ARGS[*a as usize].0)],
+        RndOp::ViaDef(n) => vec![
+            format!("10 DEF FN D(N) = INT(RND(1) * N) + {}", if n % 2 == 0 { 1 } else { 0 }),
+            format!("20 PRINT RND(FN D({}))", n),
+            "RUN".to_string(),
+            "10".to_string(),
+            "20".to_string(),
+        ],
         RndOp::Loop(n) => vec![
             format!("10 FOR K = 1 TO {}", n),
             "20 PRINT RND(K)".to_string(),
@@ -233,6 +247,34 @@ fn expect_of(op: &RndOp, m: &mut Model) -> Vec<(Vec<Expect>, bool)> {
                 out.push((vec![], false));
             }
             out
+        }
+        RndOp::Nested(a) => {
+            m.state = model_next(m.state);
+            m.started = true;
+            let first = (vec![Expect::Exact(format!("{}\n", model_value(m.state)))], false);
+            let second = match m.rnd(*a) {
+                Err(()) => (vec![], true),
+                // the inner value is the outer argument: positive advances, zero repeats
+                Ok(v) => {
+                    let v = v.expect("a positive call has happened");
+                    if v > 0.0 {
+                        m.state = model_next(m.state);
+                    }
+                    (vec![Expect::Exact(format!("{}\n", model_value(m.state)))], false)
+                }
+            };
+            vec![first, second]
+        }
+        RndOp::ViaDef(n) => {
+            // inner call (always positive), then the outer call with FN D's value
+            m.state = model_next(m.state);
+            m.started = true;
+            let d = (model_value(m.state) * (*n as f64)).floor() + if n % 2 == 0 { 1.0 } else { 0.0 };
+            if d > 0.0 {
+                m.state = model_next(m.state);
+            }
+            let run = (vec![Expect::Exact(format!("{}\n", model_value(m.state)))], false);
+            vec![(vec![], false), (vec![], false), run, (vec![], false), (vec![], false)]
         }
         RndOp::Loop(n) => {
             let mut out = vec![(vec![], false), (vec![], false), (vec![], false)];
@@ -318,7 +360,7 @@ fn check_script(s: &RndScript, rec: &mut CaseRec) -> Verdict {
     let mut classes_seen = [false; 3];
     for op in &s.ops {
         match op {
-            RndOp::Print(x) | RndOp::Dice(x) => classes_seen[ARGS[*x as usize].1 as usize] = true,
+            RndOp::Print(x) | RndOp::Dice(x) | RndOp::Nested(x) => classes_seen[ARGS[*x as usize].1 as usize] = true,
             RndOp::Sum(x, y) => {
                 classes_seen[ARGS[*x as usize].1 as usize] = true;
                 classes_seen[ARGS[*y as usize].1 as usize] = true;
@@ -481,7 +523,7 @@ pub fn property() -> Property {
     ];
     Property {
         id: "C18",
-        rule: "state-sweep/state-boundaries: generator states stepped through the rng_step hook and compared bit-for-bit with an independent u128 model (quick: every 128th of the 2^33 states plus all power-of-two neighbours and both ends; thorough: all 2^33 states; each 65536-state chunk is one counted case, coverage.states_checked gives the number of states). seed-step: seeds from boundaries + random u64, non-trivial iff seed >= 2^33. api-scripts: random scripts of PRINT RND(x) / RND inside expressions / numbered programs and FOR loops on two core interpreters and the Web adapter, all seeded alike, compared with the model; non-trivial iff the script uses positive, zero and negative arguments and the seed is >= 2^33; distinct by script.",
+        rule: "state-sweep/state-boundaries: generator states stepped through the rng_step hook and compared bit-for-bit with an independent u128 model (quick: every 128th of the 2^33 states plus all power-of-two neighbours and both ends; thorough: all 2^33 states; each 65536-state chunk is one counted case, coverage.states_checked gives the number of states). seed-step: seeds from boundaries + random u64, non-trivial iff seed >= 2^33. api-scripts: random scripts of PRINT RND(x) / RND inside expressions / RND(RND(x)) / RND of a user function that itself calls RND / numbered programs and FOR loops on two core interpreters and the Web adapter, all seeded alike, compared with the model; non-trivial iff the script uses positive, zero and negative arguments and the seed is >= 2^33; distinct by script.",
         assumptions: vec![
             "RND(0) before any positive call after seeding has no defined 'previous value'; only 0 <= v < 1 is required there",
             "f64 division by 2^33 is exact for states < 2^33, so bit-equality is the right comparison",
